@@ -73,7 +73,7 @@ def jobs(tier):
         for mode in (0, 1, 2):
             for ch in (0, 1, 2, 3):
                 grid = mode != 0   # masked float queries do not finish on the full domain: 5-point grid, labelled bounded
-                if tier == "quick" and (ch in (2, 3) or (mode == 0 and op not in ("over", "add", "in"))):
+                if tier == "quick" and (ch in (2, 3) or (mode == 0 and op not in ("add", "src"))):  # full-domain float queries: 15 s (add) .. 6 min (over)
                     continue
                 d = {"VC_NAME": op, "VC_FA": fa, "VC_FB": fb, "VC_MODE": mode, "VC_CH": ch}
                 if grid:
@@ -88,7 +88,7 @@ def jobs(tier):
              "soft_light", "disjoint_over", "conjoint_xor", "saturate"]
     for op in FMASK:
         for ch in (0, 1, 2, 3):
-            if tier == "quick" and (ch in (0, 2) or op not in ("hsl_hue", "hsl_luminosity", "over", "soft_light")):
+            if tier == "quick" and (ch in (0, 2) or op not in ("hsl_hue", "hsl_luminosity", "over")):
                 continue
             js.append(Job("float.maskgrid.%s.ch%d" % (op, ch), "C01/float_mask.c",
                           defines={"VC_FN": "combine_%s_u_float" % op, "VC_CH": ch, "VC_GRID": 1}, kind="bounded",
